@@ -180,6 +180,67 @@ def Sys.measure (s : Sys) : Nat :=
     pRank s.pPhase + cRank s.cPhase + b2n s.outEof + b2n s.errEof
 
 
+/-! ### Part 2b: the parent's and the child's moves derived from the API calls as coded
+
+  `Process::write(buf, len)` is one `::write(fdStdInWrite, buf, len)`: it blocks while the pipe is full, otherwise
+  transfers what fits.  `Process::close(stdinStream)` closes the write end.  `Process::read(buf, len, streams)`
+  (Process.cpp:870-914) selects on the open selected descriptors and, when one is readable (data, or end-of-file
+  because no write end is left), reads stdout if that is readable, else stderr; the result 0 means end-of-file and
+  the caller (harness `drain`) stops selecting that stream.  `Process::join` waits for the child.  The harness
+  (`opIo`) calls `write` in a loop until everything is taken, then `close(stdinStream)`, then `read` until both
+  streams reported end-of-file, then `join`.  The `@io` child calls `read(0, buf, len)` until it returns 0, then
+  `write(1, ...)` in a loop, then `write(2, ...)`, then exits.  `len` is the callers' buffer size. -/
+
+/-- the parent's next move; `none` = blocked in the kernel (or finished) -/
+def parentNext (len : Nat) (s : Sys) : Option Sys :=
+  match s.pPhase with
+  | .writing =>
+    if s.toSend.isEmpty then some { s with inOpen := false, pPhase := .draining }           -- close(stdinStream)
+    else
+      let k := min (min len s.toSend.length) (s.cap - s.inQ.length)
+      if k = 0 then none                                                                   -- write blocks: pipe full
+      else some { s with inQ := s.inQ ++ s.toSend.take k, toSend := s.toSend.drop k }        -- Process::write
+  | .draining =>
+    -- Process::read(buf, len, streams) with streams = the ones that have not reported end-of-file yet
+    if s.outEof = false ∧ s.outQ ≠ [] then
+      some { s with gotOut := s.gotOut ++ s.outQ.take (min len s.outQ.length), outQ := s.outQ.drop (min len s.outQ.length) }
+    else if s.outEof = false ∧ s.cPhase = .exited then some { s with outEof := true }        -- read returned 0 on stdout
+    else if s.errEof = false ∧ s.errQ ≠ [] then
+      some { s with gotErr := s.gotErr ++ s.errQ.take (min len s.errQ.length), errQ := s.errQ.drop (min len s.errQ.length) }
+    else if s.errEof = false ∧ s.cPhase = .exited then some { s with errEof := true }
+    else if s.outEof = true ∧ s.errEof = true ∧ s.cPhase = .exited then
+      some { s with pPhase := .joined, code := some s.exitCode }                            -- Process::join
+    else none                                                                              -- select / waitpid blocks
+  | .joined => none
+
+/-- the `@io` child's next move -/
+def childNext (len : Nat) (s : Sys) : Option Sys :=
+  match s.cPhase with
+  | .reading =>
+    if s.inQ ≠ [] then
+      some { s with gotIn := s.gotIn ++ s.inQ.take (min len s.inQ.length), inQ := s.inQ.drop (min len s.inQ.length) }
+    else if s.inOpen = false then some { s with cPhase := .writingOut }                      -- read returned 0
+    else none
+  | .writingOut =>
+    if s.toOut.isEmpty then some { s with cPhase := .writingErr }
+    else
+      let k := min (min len s.toOut.length) (s.cap - s.outQ.length)
+      if k = 0 then none else some { s with outQ := s.outQ ++ s.toOut.take k, toOut := s.toOut.drop k }
+  | .writingErr =>
+    if s.toErr.isEmpty then some { s with cPhase := .exited }
+    else
+      let k := min (min len s.toErr.length) (s.cap - s.errQ.length)
+      if k = 0 then none else some { s with errQ := s.errQ ++ s.toErr.take k, toErr := s.toErr.drop k }
+  | .exited => none
+
+/-- a run of the two programs under a scheduler given as a list of choices (true = parent) -/
+def runCoded (len : Nat) : List Bool → Sys → Sys
+  | [], s => s
+  | b :: r, s =>
+    match (if b then parentNext len s else childNext len s) with
+    | some s' => runCoded len r s'
+    | none => runCoded len r s           -- the chosen process is blocked: nothing happens
+
 /-! ### Part 3: `join()` while the child is still reading its input and going to write ("join first")
 
   The parent calls `join()` (or the destructor does) without having closed the redirected stdin and
